@@ -18,6 +18,17 @@ type Cluster struct {
 	Type   string
 	Addr   string
 	Stores []iface.Store
+	// ACOpts, when set, builds the access-controller options every opener has to pass (controllers
+	// whose list is not in the manifest)
+	ACOpts func() accesscontroller.ManifestParams
+}
+
+// OpenOpts completes open options with what this cluster's access controller needs.
+func (c *Cluster) OpenOpts(o *orbitdb.CreateDBOptions) *orbitdb.CreateDBOptions {
+	if c.ACOpts != nil && o.AccessController == nil {
+		o.AccessController = c.ACOpts()
+	}
+	return o
 }
 
 // ClusterOpts configures NewCluster.
@@ -30,6 +41,9 @@ type ClusterOpts struct {
 	OpenOn  []int // peers that open the db (nil: all)
 	Replicate *bool
 	DefaultAC bool // create without access-controller options (creator only)
+	// ACType "simple": the bundled in-memory controller — the list is not recorded in the manifest, every
+	// opener passes it itself (SkipManifest); "" = the default ipfs controller
+	ACType string
 }
 
 // WriteList turns peer indices into identity ids.
@@ -78,6 +92,12 @@ func NewCluster(ctx context.Context, o ClusterOpts) (*Cluster, error) {
 	if !o.DefaultAC {
 		copts.AccessController = &accesscontroller.CreateAccessControllerOptions{Access: map[string][]string{"write": w.WriteList(writers)}}
 	}
+	if o.ACType == "simple" {
+		c.ACOpts = func() accesscontroller.ManifestParams {
+			return &accesscontroller.CreateAccessControllerOptions{SkipManifest: true, Type: "simple", Access: map[string][]string{"write": w.WriteList(writers)}}
+		}
+		copts.AccessController = c.ACOpts()
+	}
 	s0, err := w.Peers[0].DB.Create(ctx, name, o.Type, copts)
 	if err != nil {
 		return nil, fmt.Errorf("create: %w", err)
@@ -95,7 +115,7 @@ func NewCluster(ctx context.Context, o ClusterOpts) (*Cluster, error) {
 		if i == 0 {
 			continue
 		}
-		s, err := w.Peers[i].DB.Open(ctx, c.Addr, &orbitdb.CreateDBOptions{Replicate: o.Replicate})
+		s, err := w.Peers[i].DB.Open(ctx, c.Addr, c.OpenOpts(&orbitdb.CreateDBOptions{Replicate: o.Replicate}))
 		if err != nil {
 			return nil, fmt.Errorf("open on %d: %w", i, err)
 		}
@@ -134,7 +154,7 @@ func (c *Cluster) Reopen(ctx context.Context, i int) error {
 	if _, err := p.StartInstance(ctx); err != nil {
 		return err
 	}
-	s, err := p.DB.Open(ctx, c.Addr, &orbitdb.CreateDBOptions{})
+	s, err := p.DB.Open(ctx, c.Addr, c.OpenOpts(&orbitdb.CreateDBOptions{}))
 	if err != nil {
 		return err
 	}
